@@ -294,7 +294,8 @@ def sinks(rep, prog, always, srcs, tag):
     rep.floor("Argon2 salt operands" + tag, n, 3)
     # HEADER: init_push
     for f in prog.by_path.get("classic::crypto_secretstream_xchacha20poly1305::crypto_secretstream_xchacha20poly1305_init_push", []):
-        hdr = f.arg_local("header")
+        hs = [q for q in cm.params_of(f) if "[u8; 24]" in f.locals[q]["t"]]     # init_push(state, header, key)
+        hdr = hs[0] if len(hs) == 1 else f.arg_local("header")
         rcs = [r for r in f.calls() if any(t.key in always for t in prog.callee_fns(r)) and r.args
                and any(cm.view_info(f, l) == (hdr, False) for l in operand_locals(r.args[0]))]
         uses = [u for u in f.calls() if u not in rcs and any(cm.view_info(f, l)[0] == hdr for a in u.args for l in operand_locals(a))
